@@ -3,4 +3,4 @@ CONSTANTS
   Full = FALSE
   DEV_SmallAngleLinearised = FALSE
   DEV_EnvironmentNotMoved = TRUE
-INVARIANT LawImplConforms
+INVARIANT G_LawImplConforms
